@@ -166,7 +166,7 @@ def client_histories(rnd, n):
     try:
         for k in range(n):
             fault = faults[k % len(faults)]
-            item = rnd.choice(["J601", "J42"])
+            item = rnd.choice(["J601", "J42", "JRAW"])
             ver = rnd.choice([1.0, 2.0])
             p = jsonrpc.ServerProxy(peer.url(), version=ver)
             with peer.lock:
@@ -178,8 +178,9 @@ def client_histories(rnd, n):
             with peer.lock:
                 peer.script[:] = [item]
             second = outcome(lambda: p.echo("tok2-%d" % k))
-            recs.append({"fault": fault, "item": item, "want": "protocol" if item == "J601" else "app", "code": enc(-32601 if item == "J601" else 42),
-                         "second": second})
+            raw = ["cafe\u0301", "\u212b", {"k\u0308": "\u1e9b\u0323"}]
+            recs.append({"fault": fault, "item": item, "want": "value" if item == "JRAW" else "protocol" if item == "J601" else "app",
+                         "code": enc(-32601 if item == "J601" else 42), "expected": enc(raw), "second": second})
             try:
                 p("close")()
             except BaseException:  # noqa
@@ -257,7 +258,7 @@ def concurrent_proxies(rnd, n):
         ca.join(40)                      # (bounded; a loaded machine is not a verdict)
         for ls in (lsA, lsB):
             ls.close()
-        recs.append({"fault": "concurrent-proxy", "item": item, "want": "protocol" if item == "J601" else "app", "code": enc(err["code"]),
+        recs.append({"fault": "concurrent-proxy", "item": item, "want": "protocol" if item == "J601" else "app", "code": enc(err["code"]), "expected": enc(None),
                      "second": res.get("a", {"kind": "no-outcome", "args": [], "val": enc(None), "data": enc(None)})})
     return recs
 
